@@ -85,6 +85,13 @@ def run_case(c, stats):
     stats.cls("vc:" + c["vc"])
     with core.oracle_mode():
         ref = ref_of(g)
+        # the grammar holds the productions and the start symbol that were given to the constructor
+        want = gcfg.ref_of_case(c)
+        core.LOG.count("C08.construction")
+        if (frozenset(ref.prods), ref.start) != (frozenset(want.prods), want.start):
+            core.report(PROP, "construct", "grammar-differs-from-what-was-given",
+                        {"missing": sorted(map(repr, set(want.prods) - set(ref.prods)))[:3],
+                         "extra": sorted(map(repr, set(ref.prods) - set(want.prods)))[:3]}, tags_of(ref))
         for t in tags_of(ref):
             stats.cls("tag:" + t)
         nt = c["nt"]
